@@ -189,6 +189,15 @@ func (g *Gen) initTrusted() {
 		return errVal(fc, st, "false"), true
 	}
 	t["fmt.Errorf"] = &Trusted{pure: true, rule: nonNilErr}
+	for _, n := range []string{"hash/fnv.New32a", "hash/fnv.New32", "hash/fnv.New64a", "hash/fnv.New64"} {
+		t[n] = &Trusted{pure: true, rule: func(fc *FnCtx, st *State, in ssa.Instruction, c *ssa.CallCommon, args []Val, resT types.Type) (Val, bool) {
+			fc.useTrusted("hash/fnv.New*(): a non-nil hasher")
+			h := fc.q.freshConst("hasher", sIface)
+			fc.typeInv(st, h, resT)
+			fc.q.assert(implies(st.reach, not(eq("(itag "+h+")", "0"))))
+			return Val{T: h}, true
+		}}
+	}
 	t["errors.New"] = &Trusted{pure: true, rule: nonNilErr}
 	t["fmt.Sprintf"] = &Trusted{pure: true, rule: func(fc *FnCtx, st *State, in ssa.Instruction, c *ssa.CallCommon, args []Val, resT types.Type) (Val, bool) {
 		fconst, ok := c.Args[0].(*ssa.Const)
